@@ -8,9 +8,11 @@ CFG = {
             "generated streams (three chunkings), Close() issued while blocked in a read at every chunk boundary, four consumers "
             "(Finish at once / retain everything / Finish 1..5 items late) with deep copies compared to the retained originals, "
             "Escape-timer scripts with 40 ms pauses after a lone ESC and back-to-back reads otherwise; distinct by (consumer, script)",
-    "trusted_base": ["Model/ParserRunFine.lean lists the statements of run/readRune/the timer callback in source order (by reading; shape flags regenerated); "
+    "trusted_base": ["the statement order of run/readRune/the timer callback in Model/ParserRunFine.lean is pinned to the regenerated skeletons (Gen/ParserRun.lean, Gen/ParserReader.lean: "
+                     "model_order_is_source_order); what each statement *does* (mainStep/cbStep) is by reading; "
                      "sync.Mutex gives sequential consistency for the fields it guards; FIFO order of emit; time.AfterFunc/Stop and sync.Pool semantics as stated in notes/C08.md",
-                     "pool models (explicit arrays in Model/ParserPools.lean, refining to Own) follow escapeDispatch/csiDispatch/hook/Finish/clear/collect by reading, validated by the retention harness"],
+                     "pool models (explicit arrays in Model/ParserPools.lean, refining to Own): the intermediate pool is driven by the automaton's statements in table order (Model/ParserPoolsDrive.lean); "
+                     "what collect/clear/dispatch/Finish do to a slice, and the parameter pools (local to one csiDispatch), follow the Go methods by reading, validated by the retention harness"],
     "assumptions": ["the consumer keeps receiving (emit blocks otherwise, by design: consumer_stops_blocks; with a receiving consumer every finite input terminates: finite_input_terminates)", "each delivered sequence is passed to Finish at most once",
                     "40 ms >> 10 ms >> back-to-back reads on the test machine (prompt cases with surplus Escape reports are re-run)"],
     "level_text": "Proved for every schedule of reads, end of input, Close(), timer firings and late timer callbacks: exactly one EOF, last, then the channel is closed, "
@@ -24,10 +26,19 @@ CFG = {
                   "Bounded channel (capacity regenerated) with an explicit consumer: FIFO, a blocked emit is enabled by one receive, no deadlock, a fair schedule delivers every finite input "
                   "and ends closed within an explicit step bound; a consumer that stops receiving blocks the parser for ever (witness). "
                   "Conversely every atomic run is a schedule of single statements (same outputs at quiescent points). "
+                  "Round 3 - bounded channel on the statement-grained system (every emit of every goroutine blocks on a full channel): it projects onto the system without channel with "
+                  "received ++ queued ++ pending = its output, so EOF once and last / no panic hold of what the consumer receives; a callback blocked in emit holds the mutex (its statement disabled, "
+                  "main blocked at Lock, no other callback can move, one receive unblocks it; reachable witness with capacity 2), likewise the main goroutine blocked inside anywhere; no deadlock with a receiving consumer. "
+                  "Pools driven by the automaton: walking the statements of the anywhere row and the state function's row in source order (early return included, Get exactly when the slice is non-empty, "
+                  "any Get answers, Finish interleaved) is always a run of the pool model, so delivered sequences are immutable for the real action order; outside the dead states (ground, dcsPassthrough) the "
+                  "slice reads the automaton's inter, and every hand-over delivers exactly the intermediates the automaton put into the sequence (table-wide check). "
+                  "Statement order: run (both select arms, tail) and the timer callback are extracted as skeletons; the model's program counters stand in front of these statements in source order. "
+                  "Parameter pools: negative witnesses (storage kept by the parser at emit / double Finish => a held CSI is overwritten). "
                   "Composition with C02 (Props/C08Spec): for every schedule the delivered items are exactly what the reference machine of Spec/VT500.lean prescribes for the same labels - runes through the VT500 machine "
-                  "(F102/F102c on), the Escape key = Spec escKey at every up-to-date timer firing and nowhere else, the open control string at end of input, one EOF; for segment scripts this is Spec.runWithEscKeysD, the driver's oracle. "
+                  "(F102 on; F102c is repaired), the Escape key = Spec escKey at every up-to-date timer firing and nowhere else, the open control string at end of input, one EOF; for segment scripts this is Spec.runWithEscKeysD, the driver's oracle. "
                   "Real time is abstracted to the order of timer and read events.",
-    "level_note": "LTS tied to the code by the regenerated table/timer shape and by scripted-reader correspondence (incl. hook-forced callback delays in a child process). "
+    "level_note": "LTS tied to the code by the regenerated table/timer shape, the regenerated run/callback skeletons (Props/C08Order) and by scripted-reader correspondence (incl. hook-forced callback delays in a child process). "
+                  "Modelled, not verified: fair-run termination on the statement-grained channel layer (only no-deadlock there; termination is proved on the atomic layer, C08Live); real time. "
                   "Fixed in /repo: F108 (ignoreST after Escape key inside a string), F29 (unguarded timer callback: late Escape, torn sequence, send on closed channel).",
     "timeout": 1800,
 }
